@@ -345,8 +345,96 @@ def secrets(ch, which):
     return 'SECRET-%s-VALUE' % which
 
 
+def stock_stage(V):
+    """the stock guards (security.RestrictedDTML, AccessControl's policy) instead of the recording guard: elements of
+    containers that do not hand out their unprotected sub-objects are refused whatever their type; the two-run
+    non-interference test decides (different values behind the refused elements, equal outputs, no marker shown)"""
+    from AccessControl.SecurityManagement import getSecurityManager, noSecurityManager
+    from zExceptions import Unauthorized
+    from DocumentTemplate.DT_HTML import HTML
+    from DocumentTemplate.security import RestrictedDTML
+
+    class Stock(RestrictedDTML, HTML):
+        def getOwner(self):
+            return None
+
+        def __call__(self, client=None, REQUEST={}, RESPONSE=None, **kw):
+            sm = getSecurityManager()
+            sm.addContext(self)
+            try:
+                return HTML.__call__(self, client, REQUEST, **kw)
+            finally:
+                sm.removeContext(self)
+
+    class Vault:
+        __allow_access_to_unprotected_subobjects__ = 0
+
+        def __init__(self, items):
+            self._items = items
+
+        def __len__(self):
+            return len(self._items)
+
+        def __getitem__(self, i):
+            return self._items[i]
+
+    class Mixed(Vault):
+        def __allow_access_to_unprotected_subobjects__(self, name, value):
+            return 'SECRET' not in repr(value) and value not in (41, 42, 4.25, 4.5)
+
+    class Thing:
+        __allow_access_to_unprotected_subobjects__ = 1
+
+        def __init__(self, v):
+            self.v = v
+
+        def __repr__(self):
+            return 'Thing(%r)' % (self.v,)
+
+    def secrets(kind, which):
+        if kind == 'str':
+            return 'SECRET-%s' % which
+        if kind == 'int':
+            return 41 if which == 'A' else 42
+        if kind == 'float':
+            return 4.25 if which == 'A' else 4.5
+        if kind == 'bytes':
+            return ('SECRET-%s' % which).encode()
+        if kind == 'none':
+            return None
+        return Thing('SECRET-%s' % which)
+    tags = ['<dtml-in q><dtml-var sequence-item>;</dtml-in>', '<dtml-in q skip_unauthorized><dtml-var sequence-item>;</dtml-in>',
+            '<dtml-in q size=9><dtml-var sequence-item>;</dtml-in>', '<dtml-in q size=9 skip_unauthorized><dtml-var sequence-item>;</dtml-in>',
+            '<dtml-in q no_push_item><dtml-var sequence-item>;</dtml-in>', '<dtml-in q prefix=it skip_unauthorized><dtml-var it_item>;</dtml-in>',
+            '<dtml-var "q[1]">']
+    # (not here: sort= copies the elements before they are fetched through the guard -- known finding F9; a slice q[1:2]
+    #  in an expression is answered by AccessControl's own item guard, which hands slices out unchecked)
+    for cont in (Vault, Mixed):
+        for kind in ('str', 'int', 'float', 'bytes', 'obj'):
+            for src in tags:
+                outs = []
+                for which in ('A', 'B'):
+                    pub = {'str': 'pub', 'int': 7, 'float': 1.5, 'bytes': b'pub', 'obj': Thing('pub')}[kind]
+                    q = cont([pub, secrets(kind, which), pub])
+                    noSecurityManager()
+                    try:
+                        out = str(Stock(src)(q=q))
+                    except Unauthorized:
+                        out = 'RAISED Unauthorized'
+                    except Exception as e:  # noqa
+                        out = 'RAISED %s' % type(e).__name__
+                    outs.append(out)
+                V.count('stock_guard_cases')
+                if outs[0] != outs[1] or 'SECRET' in outs[0] + outs[1]:
+                    V.violation({'kind': 'flow', 'channel': 'stock-guard-in-item', 'channel_kind': 'initem', 'attribute_class': 'denied',
+                                 'context': cont.__name__ + ' of ' + kind, 'source': src, 'output_run_A': outs[0][:200],
+                                 'output_run_B': outs[1][:200], 'cls': 'stock-guard-element-shown'})
+    noSecurityManager()
+
+
 def main(tier):
     V = common.Verdicts(PID, tier)
+    stock_stage(V)
     recs, meta = [], []
     for ch in CHANNELS:
         for cls in ('public', 'private', 'denied'):
